@@ -4,6 +4,7 @@
 import sys, time, os
 import z3
 from .ir import *
+from . import domain
 
 sys.setrecursionlimit(100000)
 NULL = ('P', None, 0)
@@ -31,12 +32,12 @@ def new_sid():
     _sid[0] += 1; return _sid[0]
 
 class State:
-    __slots__ = ('mem', 'frames', 'sid', 'model', 'inputs', 'live', 'libc_calls', 'covers', 'decisions', 'nasserts',
+    __slots__ = ('mem', 'frames', 'sid', 'vals', 'dom', 'ent', 'inputs', 'live', 'libc_calls', 'covers', 'decisions', 'nasserts',
                  'notes', 'nfail', 'assumed', 'nobj')
     def clone(s):
         n = State(); n.mem = dict(s.mem); n.frames = [f.copy() for f in s.frames]
         n.sid = new_sid(); s.sid = new_sid()
-        n.model = s.model; n.inputs = list(s.inputs); n.live = dict(s.live); n.libc_calls = s.libc_calls
+        n.vals = s.vals; n.dom = dict(s.dom); n.ent = s.ent; n.inputs = list(s.inputs); n.live = dict(s.live); n.libc_calls = s.libc_calls
         n.covers = list(s.covers); n.decisions = list(s.decisions); n.nasserts = s.nasserts; n.notes = list(s.notes)
         n.nfail = s.nfail; n.assumed = s.assumed; n.nobj = s.nobj
         return n
@@ -70,9 +71,9 @@ class Engine:
     def __init__(E, mod, lib_globals=(), opts=None):
         E.mod = mod; E.opts = opts or {}
         E.solver = z3.Solver(); E.solver.set('timeout', int(E.opts.get('solver_timeout_ms', 120000)))
-        E.depth = 0
+        E.lstack = []; E.npushed = 0; E.xc = 0; E.xc_all = bool(os.environ.get('UK_CROSSCHECK'))
         E.stats = {'paths': 0, 'instr': 0, 'queries': 0, 'solver_s': 0.0, 'forks': 0, 'asserts_checked': 0,
-                   'asserts_solver': 0, 'assumed_away': 0, 'memchecks': 0, 'model_hits': 0, 'states': 0}
+                   'asserts_solver': 0, 'assumed_away': 0, 'memchecks': 0, 'model_hits': 0, 'states': 0, 'dom_pruned': 0, 'dom_feasible': 0, 'dom_crosschecked': 0}
         E.funcs_entered = set(); E.covers = {}; E.cover_models = {}; E.violations = []; E.samples = []; E.ub_notes = {}
         E.assert_counts = {}
         E.lib_globals = set(lib_globals)
@@ -82,28 +83,67 @@ class Engine:
         E.deadline = E.opts.get('deadline')
         E.strs = {}; E._pure = {}
 
-    # ------------------------------------------------------------------ solver
+    # ------------------------------------------------------------------ solver (lazy assertion stack) + finite-domain layer
+    def flush(E):
+        s = E.solver
+        while E.npushed < len(E.lstack):
+            s.push(); s.add(E.lstack[E.npushed]); E.npushed += 1
     def check(E, cond):
-        """is pc /\\ cond satisfiable?  returns model or None"""
-        t0 = time.time(); s = E.solver
+        """is pc /\\ cond satisfiable?  returns z3 model or None (z3 decides)"""
+        t0 = time.time(); s = E.solver; E.flush()
         s.push(); s.add(cond); r = s.check()
         m = s.model() if r == z3.sat else None
         s.pop(); E.stats['queries'] += 1; E.stats['solver_s'] += time.time() - t0
         if r == z3.unknown: raise Inconclusive('solver returned unknown: ' + s.reason_unknown())
         return m
-    def holds_in_model(E, st, cond):
-        if st.model is None: return False
-        r = st.model.eval(cond, model_completion=True)
-        return z3.is_true(r)
+    def vals_from_model(E, st, m):
+        return {var.get_id(): m.eval(var, model_completion=True).as_long() for _, _, var in st.inputs}
+    def holds(E, st, cond):
+        """does cond hold under the state's witness assignment?"""
+        tt = domain.truth_table(cond)
+        if tt is not None: return bool((tt[1] >> st.vals.get(tt[0], 0)) & 1)
+        vs = domain.vars_of(cond)
+        if not vs: return z3.is_true(z3.simplify(cond))
+        pairs = []
+        for v in vs:
+            va = domain._varast[v]; pairs.append((va, z3.BitVecVal(st.vals.get(v, 0), va.size())))
+        return z3.is_true(z3.simplify(z3.substitute(cond, pairs)))
     def feasible(E, st, cond):
-        """returns a model of pc /\\ cond (possibly the state's cached one) or None"""
-        if E.holds_in_model(st, cond):
-            E.stats['model_hits'] += 1; return st.model
-        return E.check(cond)
-    def push(E, cond):
-        E.solver.push(); E.solver.add(cond); E.depth += 1
+        """returns a witness assignment (dict) for pc /\\ cond, or None if unsatisfiable"""
+        tt = domain.truth_table(cond)
+        if tt is not None:
+            v, mask = tt; d = st.dom.get(v, domain.ALL) & mask
+            if d == 0:
+                E.stats['dom_pruned'] += 1
+                if E.crosscheck(): E.xcheck(cond, False)
+                return None
+            if (mask >> st.vals.get(v, 0)) & 1: E.stats['model_hits'] += 1; return st.vals
+            if v not in st.ent:
+                E.stats['dom_feasible'] += 1
+                if E.crosscheck(): E.xcheck(cond, True)
+                nv = dict(st.vals); nv[v] = domain.lowest(d); return nv
+        elif E.holds(st, cond):
+            E.stats['model_hits'] += 1; return st.vals
+        m = E.check(cond)
+        return None if m is None else E.vals_from_model(st, m)
+    def crosscheck(E):
+        E.xc += 1
+        return E.xc_all or E.xc % 257 == 0
+    def xcheck(E, cond, expect):
+        E.stats['dom_crosschecked'] += 1
+        m = E.check(cond)
+        if (m is not None) != expect: raise Inconclusive('finite-domain layer disagrees with z3 on ' + str(cond)[:200])
+    def assume(E, st, cond):
+        """add cond to the path condition"""
+        E.lstack.append(cond)
+        tt = domain.truth_table(cond)
+        if tt is not None: st.dom[tt[0]] = st.dom.get(tt[0], domain.ALL) & tt[1]
+        else: st.ent = st.ent | domain.vars_of(cond)
     def pop_to(E, d):
-        while E.depth > d: E.solver.pop(); E.depth -= 1
+        del E.lstack[d:]
+        while E.npushed > d: E.solver.pop(); E.npushed -= 1
+    @property
+    def depth(E): return len(E.lstack)
 
     # ------------------------------------------------------------------ memory
     def new_obj(E, st, size, kind, name=None, site=None):
@@ -137,7 +177,7 @@ class Engine:
                 else:
                     m = E.feasible(st, c)
                     if m is not None:
-                        st.model = m; E.push(c)
+                        st.vals = m; E.assume(st, c)
                         raise Violation('limit', 'store at byte offset %d of %s beyond the symbolic capacity limit' % (off, o.name))
         else:
             if o.kind == 'g' and o.name in E.lib_globals and not o.ro: E.ub_notes['load from writable library global ' + o.name] = 1
@@ -489,7 +529,7 @@ class Engine:
             if not E.narrow(x, y, bits, op):
                 mm = E.feasible(st, bad)
                 if mm is not None:
-                    st.model = mm; E.push(bad)
+                    st.vals = mm; E.assume(st, bad)
                     raise Violation('overflow', 'signed integer overflow (%s i%d) in %s' % (op, bits, st.frames[-1].fn.name))
         if op == 'add': return x + y
         if op == 'sub': return x - y
@@ -501,14 +541,14 @@ class Engine:
             if tb is not int:
                 bad = z3.UGE(y, z3.BitVecVal(bits, bits)); mm = E.feasible(st, bad)
                 if mm is not None:
-                    st.model = mm; E.push(bad); raise Violation('ub', 'shift amount out of range')
+                    st.vals = mm; E.assume(st, bad); raise Violation('ub', 'shift amount out of range')
             elif b >= bits: raise Violation('ub', 'shift amount out of range')
             return x << y if op == 'shl' else z3.LShR(x, y) if op == 'lshr' else x >> y
         if op in ('udiv', 'urem', 'sdiv', 'srem'):
             if tb is not int:
                 bad = (y == z3.BitVecVal(0, bits)); mm = E.feasible(st, bad)
                 if mm is not None:
-                    st.model = mm; E.push(bad); raise Violation('ub', 'division by zero')
+                    st.vals = mm; E.assume(st, bad); raise Violation('ub', 'division by zero')
             elif b == 0: raise Violation('ub', 'division by zero')
             if op == 'udiv': return z3.UDiv(x, y)
             if op == 'urem': return z3.URem(x, y)
@@ -695,15 +735,9 @@ class Engine:
             if c not in E.cover_models: E.cover_models[c] = E.render_inputs(st)
         if len(E.samples) < E.max_samples and (E.stats['paths'] % E.sample_every == 1 or E.stats['paths'] <= 2):
             E.samples.append({'inputs': E.render_inputs(st), 'covers': sorted(set(st.covers)), 'asserts_proved_on_path': st.nasserts,
-                              'notes': st.notes[:8], 'decisions': len(st.decisions)})
+                              'texts': E.render_notes(st), 'decisions': len(st.decisions)})
     def model_inputs(E, st):
-        m = st.model; out = []
-        for name, bits, var in st.inputs:
-            v = 0
-            if m is not None:
-                r = m.eval(var, model_completion=True); v = r.as_long()
-            out.append([name, bits, v])
-        return out
+        return [[name, bits, st.vals.get(var.get_id(), 0)] for name, bits, var in st.inputs]
     def render_inputs(E, st):
         vals = E.model_inputs(st); groups = {}; order = []
         for name, bits, v in vals:
@@ -719,9 +753,42 @@ class Engine:
                 else: out[b] = [v for _, v in g]
             else: out[b] = g[0][1]
         return out
+    def render_notes(E, st):
+        out = {}
+        for nt in st.notes:
+            if nt[0] == '$val':
+                v = nt[2]
+                if type(v) is not int and type(v) is not tuple:
+                    pairs = [(domain._varast[x], z3.BitVecVal(st.vals.get(x, 0), domain._varast[x].size())) for x in domain.vars_of(v)]
+                    v = z3.simplify(z3.substitute(v, pairs)) if pairs else z3.simplify(v)
+                    v = v.as_long() if z3.is_bv_value(v) else str(v)
+                out[nt[1]] = v if type(v) is int else str(v); continue
+            _, label, p, n, es = nt; s = []
+            o = st.mem.get(p[1]) if p[1] is not None else None
+            if o is None or o.dead: out[label] = '<gone>'; continue
+            for k in range(n):
+                try:
+                    v = E.load_raw(st, o, p[2] + k * es, es)
+                except Exception: v = None
+                if v is None: s.append('?'); continue
+                if type(v) is not int:
+                    pairs = [(domain._varast[x], z3.BitVecVal(st.vals.get(x, 0), domain._varast[x].size())) for x in domain.vars_of(v)]
+                    v = z3.simplify(z3.substitute(v, pairs)) if pairs else z3.simplify(v)
+                    v = v.as_long() if z3.is_bv_value(v) else None
+                s.append('?' if v is None else chr(v) if 32 <= v < 127 else '\\x%02x' % v)
+            out[label] = ''.join(s)
+        return out
+    def load_raw(E, st, o, off, n):
+        if off < 0 or off + n > o.size: return None
+        cells = o.cells[off:off + n]
+        if all(type(b) is int for b in cells): return sum(b << (8 * i) for i, b in enumerate(cells))
+        b0 = cells[0]
+        if type(b0) is tuple and b0[0] == 's' and b0[2] == 0 and b0[3] == n: return b0[1]
+        if n == 1 and type(b0) is not tuple: return b0
+        return None
     def report(E, st, kind, msg):
         stack = [f.fn.name for f in st.frames][-8:]
-        rec = {'kind': kind, 'msg': msg, 'stack': stack, 'inputs': E.model_inputs(st), 'rendered': E.render_inputs(st)}
+        rec = {'kind': kind, 'msg': msg, 'stack': stack, 'inputs': E.model_inputs(st), 'rendered': E.render_inputs(st), 'texts': E.render_notes(st)}
         E.violations.append(rec)
 
 class SymIndex(Exception):
